@@ -90,7 +90,11 @@ def run_mutations(pid, tier, seed, exe, wd):
     # at step 0, degrees <= 2, no periodic columns): the header combinations of Wire.tla reach the parsing of the proof body
     perm = [s for s in stmts if s["t"]["k"] == 1 and s["t"]["nasserts"] <= 1 and max(s["t"]["degs"]) <= 2 and not s["t"]["auxd"] and all(p == 0 for p in s["t"]["pcol"])]
     perm = [s for s in perm if s["t"]["fold"] == 2][:1] + [s for s in perm if s["t"]["fold"] >= 4 and s["t"]["ln"] >= 5][:1] + [s for s in perm if s["t"]["width"] == 1][:1]
-    chosen = perm + small[:1] + aux_lag[:1 if tier == "quick" else 4] + aux_plain[:1 if tier == "quick" else 4] + metas + chosen
+    # statements with three or more constraint composition columns: the out-of-domain evaluations can be moved inside the kernel of
+    # (reduction at z, DEEP coefficients) - the adaptive substitution of the harness - only there
+    multi = [s for s in stmts if s.get("ccols", 0) >= 3]
+    multi = multi[::max(1, len(multi) // (3 if tier == "quick" else 12))][:3 if tier == "quick" else 12]
+    chosen = perm + small[:1] + aux_lag[:1 if tier == "quick" else 4] + aux_plain[:1 if tier == "quick" else 4] + metas + multi + chosen
     scs = [starkgen.scenario(rec, i, seed) for i, rec in enumerate(chosen)]
     # every (field, hasher) combination on a small statement: what a hasher does with the integers it is handed (nonce, counters)
     # differs per hasher, so the structured mutations run once under each of them (fewer random edits, no truncations)
@@ -132,7 +136,7 @@ def run_mutations(pid, tier, seed, exe, wd):
 
 
 def summarize(obs):
-    tot = {"structured": 0, "bitflips": 0, "truncations": 0, "byte_edits": 0, "proofs": 0}
+    tot = {"structured": 0, "bitflips": 0, "truncations": 0, "byte_edits": 0, "proofs": 0, "adaptive_ood": sum(1 for _, o in obs if o.get("adaptive_ood"))}
     tally = {}
     for sc, o in obs:
         if "tally" not in o:
